@@ -194,6 +194,9 @@ def gen_cases(tier, seed):
         add("asan-eval", "asan-eval", variant="asan", weight=12.0, part=i, nparts=m)
     for i in range(1 * m):
         add("asan-sdmx", "asan-sdmx", variant="asan", weight=10.0, n=6)
+        # the same with a team of 8: per-thread grid partitions of the SDMX contraction kernels for point sets shorter than
+        # team x (team - 1) (added after a seeded "last thread takes the remainder" partition that overruns the arrays)
+        add("asan-sdmx", "asan-sdmx-t8", variant="asan", weight=10.0, threads=8, n=6)
     for i in range(1 * m):
         add("asan-fft", "asan-fft", variant="asan", weight=3.0, n=12)
     for i in range(1 * m):
@@ -1112,7 +1115,7 @@ def _sdmx_generators(rec, rng, n, keypfx, mols=None):
         mname = (mols or ["HF", "He", "LiH"] if nspin == 1 else mols or ["NH2", "Li", "H"])[j % 3]
         mol = gen.make_mol(mname, _pick(rng, ["sto-3g", "6-31g"]), rng, jitter=0.03)
         dm = gen.psd_dm(mol, rng, nspin)
-        ng = int(rng.choice([1, 2, 57, 256]))
+        ng = int(rng.choice([1, 2, 5, 24, 57, 256]))
         coords = np.ascontiguousarray(rng.normal(size=(ng, 3)) * 1.5)
         for mod, mname2 in ((sdmx_fast, "fast"), (sdmx_slow, "slow")):
             want = (s.nfeat, ng) if nspin == 1 else (2, s.nfeat, ng)
